@@ -15,10 +15,14 @@ const vhC02 = chkC02Sign | chkC02Save
 // VH_C02_Seq: one process life. Height 1 round 0 entered with no votes yet (0/1 header),
 // then 3 (quick) / 4 (thorough) events of any kind: view updates, timeouts, strategy
 // answers (any hash, late, duplicate), proposal, block data, finalization, jump-ahead.
+// Quick: at most one of the events is a view update with new vote numbers.
 func VH_C02_Seq() {
 	vhOpts()
 	e := vhNewSM(true)
 	e.symEntrances = 0
+	if !verifrt.Thorough() {
+		e.viewsLeft = 1
+	}
 	if !e.start() {
 		return
 	}
@@ -42,6 +46,9 @@ func VH_C02_Seq() {
 func VH_C02_StartAny() {
 	vhOpts()
 	e := vhNewSM(true)
+	if !verifrt.Thorough() {
+		e.viewsLeft = 1
+	}
 	if !e.start() {
 		return
 	}
@@ -63,6 +70,9 @@ func vhRestartRun(tag string, kinds []int) *vhSM {
 	e := vhNewSM(true)
 	e.symEntrances = 0
 	e.ownPHInRestart = true
+	if !verifrt.Thorough() {
+		e.viewsLeft = 1 // per process life
+	}
 	if !e.start() {
 		return nil
 	}
@@ -89,7 +99,13 @@ func vhRestartRun(tag string, kinds []int) *vhSM {
 	if midSave && !e.crashed {
 		return nil // the last event saved nothing: same as the other case
 	}
+	if len(e.signs) == 0 {
+		return nil // nothing signed in the first life: the restart is a fresh start (VH_C02_Seq)
+	}
 	e.crashOnSave, e.crashed = false, false
+	if !verifrt.Thorough() {
+		e.viewsLeft = 1
+	}
 	if !e.restart() {
 		return nil
 	}
@@ -100,7 +116,7 @@ func vhRestartRun(tag string, kinds []int) *vhSM {
 
 // VH_C02_RestartProposal: proposal family of events.
 func VH_C02_RestartProposal() {
-	e := vhRestartRun("proposal", []int{evProposal, evHeader, evTimer, evPrevoteAnswer})
+	e := vhRestartRun("proposal", []int{evProposal, evHeader, evTimer, evViewPV})
 	if e == nil {
 		return
 	}
@@ -112,7 +128,7 @@ func VH_C02_RestartProposal() {
 
 // VH_C02_RestartPrevote: prevote family of events.
 func VH_C02_RestartPrevote() {
-	e := vhRestartRun("prevote", []int{evHeader, evTimer, evPrevoteAnswer, evViewPV})
+	e := vhRestartRun("prevote", []int{evHeader, evTimer, evPrevoteAnswer, evBlockData})
 	if e == nil {
 		return
 	}
@@ -122,7 +138,7 @@ func VH_C02_RestartPrevote() {
 
 // VH_C02_RestartPrecommit: precommit family of events.
 func VH_C02_RestartPrecommit() {
-	e := vhRestartRun("precommit", []int{evViewPC, evViewPV, evTimer, evPrecommitAnswer})
+	e := vhRestartRun("precommit", []int{evViewPC, evPrecommitAnswer, evTimer})
 	if e == nil {
 		return
 	}
